@@ -1,5 +1,6 @@
 import Driver.Util
 import MpcVerif.Model.Proto2
+import MpcVerif.Model.StreamResult
 
 namespace Drv.C16
 open Mpc Drv
@@ -19,6 +20,26 @@ def parseLabels (s : String) : Option (List (BitVec 128)) :=
   (s.splitOn ",").mapM fun h => do
     let b ← Aes.bytesOfHex h
     if b.size != 16 then none else some (label128 b 0)
+
+def parseWires (s : String) : Option (List (WireL (BitVec 128))) :=
+  (s.splitOn ",").mapM fun p =>
+    match p.splitOn ":" with
+    | [a, b] => do
+      let x ← Aes.bytesOfHex a
+      let y ← Aes.bytesOfHex b
+      if x.size != 16 || y.size != 16 then none else some ⟨label128 x 0, label128 y 0⟩
+    | _ => none
+
+/-- `c16s <widths> <l0:l1,...> <labels|->`: the STREAMING garbler's result
+loop (`Mpc.streamResult`, operation word `OpResult`) on the labels a scripted
+evaluator sent: as many as it chose, each one chosen. -/
+def handleStream (widths wires labels : String) : String :=
+  match parseNats widths, parseWires wires, (if labels == "-" then some [] else parseLabels labels) with
+  | some widths, some ws, some ls =>
+    match streamResult 0 ws ls with
+    | .error _ => "error"
+    | .ok bits => s!"g={natsStr (splitNat widths (packLE bits))}"
+  | _, _, _ => "bad-op"
 
 /-- `c16 <tape> <nw> <nin> <nout> <gates> <n0> <n1> <widths> <x> <y> <labels>`:
 the garbler's result loop on the given returned labels. -/
@@ -40,6 +61,7 @@ def handle (args : List String) : String :=
       | .error _ => "error"
       | .ok bits => s!"g={natsStr (splitNat p.outWidths (packLE bits))}"
     | _, _, _, _, _, _ => "bad-op"
+  | [widths, wires, labels] => handleStream widths wires labels   -- `c16s` lines (the command word is dropped by the loop)
   | "fault" :: _ => "skip"
   | _ => "bad-op"
 
